@@ -1,6 +1,7 @@
 """C11 - combine1fiber resamples spectra: finite flux, conservative inverse variance (DESIGN §5 C11)."""
 import os
 import math
+import random
 import bisect
 import warnings
 from unittest import mock
@@ -146,6 +147,12 @@ def _arrays(c):
     x = np.array(c['x'][0] if one else c['x'], dtype='d')
     fl = np.array(c['flux'][0] if one else c['flux'], dtype='d')
     iv = None if c['ivar'] is None else np.array(c['ivar'][0] if one else c['ivar'], dtype='d')
+    if c.get('fdtype') and np.all(fl == np.rint(fl)) and np.all(np.abs(fl) < 2 ** 31):
+        fl = fl.astype(c['fdtype'])          # raw counts: the same numbers in an integer array are the same spectrum
+    if c.get('layout') == 'F' and not one:
+        # a stack of exposures that is not C-contiguous (transposed column table): the same values, another memory layout
+        x, fl = np.asfortranarray(x), np.asfortranarray(fl)
+        iv = None if iv is None else np.asfortranarray(iv)
     if c.get('bad_shape') == 'flux':
         fl = fl.ravel()[:-1].copy()
     if c.get('bad_shape') == 'ivar' and iv is not None:
@@ -347,6 +354,12 @@ def _case(rng, kind=None, fluxp=None, zerop=None, gridp=None, method='?', ivp=No
     c['tag'] = {'flux': fluxp, 'zero': zerop, 'grid': gridp, 'ivar': ivp, 'dx': dx}
     if rng.random() < 0.03:
         c['bad_shape'] = rng.choice(['flux', 'ivar']) if c['ivar'] is not None else 'flux'
+    r2 = random.Random(rng.randrange(1 << 30))
+    if kind == '2d' and r2.random() < 0.3:
+        c['layout'] = 'F'
+    if r2.random() < 0.12 and fluxp != 'smooth':      # (a rounded smooth spectrum is a staircase: the identity clause would not apply)
+        c['flux'] = [[float(round(v)) for v in r] for r in c['flux']]
+        c['fdtype'] = r2.choice(['i4', 'i8'])
     return c
 
 
@@ -660,6 +673,8 @@ def _combine(ctx, cases, search=False):
         ctx.seen({'x0': c['x'][0][:3], 'n': len(c['x'][0]), 'm': len(c['newx']), 'newx0': c['newx'][:2], 'tag': t, 'kw': c['kw'],
                   'kind': c['kind'], 'f': c['flux'][0][:3]}, nontrivial=nz)
         ctx.count('kind:%s' % c['kind'])
+        ctx.count('layout:%s' % c.get('layout', 'C'))
+        ctx.count('flux-dtype:%s' % c.get('fdtype', 'f8'))
         ctx.count('flux:%s' % t.get('flux'))
         ctx.count('zero:%s' % t.get('zero'))
         ctx.count('grid:%s' % t.get('grid'))
@@ -1163,6 +1178,9 @@ def run(ctx):
         fam = [d['case'].get('tag', {}) for d in ctx.disagreements if isinstance(d['case'], dict)][:20]
         more = [_case(rng, zerop=t.get('zero') if t.get('zero') in ZEROP else None, gridp=t.get('grid')) for t in fam for _ in range(5)]
         more += [_case(rng) for _ in range(ctx.n(60, 600))]
+        if any(isinstance(d['case'], dict) and d['case'].get('layout') == 'F' for d in ctx.disagreements):
+            # memory layout: stacked exposures with runs / single zero-weight pixels, not C-contiguous
+            more += [dict(_case(rng, kind='2d', zerop=rng.choice(['runs', 'singles', 'ends'])), layout='F') for _ in range(ctx.n(40, 300))]
         _combine(ctx, _with_scale(rng, more, 0.35), search=True)
 
 
